@@ -31,7 +31,7 @@ EXTENDS Integers, Sequences, FiniteSets, TLC
 CONSTANTS Shapes,      \* set of records [name, ch, root, ...]: the node DAGs (target trie + other nodes)
           Caps,        \* candidate values of MaxHardCapForMissingNodes (>= 1)
           Algos,       \* subset of {"double", "single"}
-          FaultSets,   \* candidate fault sets, subsets of {"cancel", "timeout", "evict", "lose"}
+          FaultSets,   \* candidate environment option sets, subsets of {"cancel", "timeout", "evict", "lose", "batch"}
           Budgets,     \* candidate numbers of adversary moves
           InitDBs(_),  \* shape -> set of initial DB key sets (resumption with a partially filled DB)
           Threats,     \* {} or {"poison"}: cache entries written under a key that is not the hash of the content
@@ -68,12 +68,12 @@ Without(f, S)  == [x \in DOMAIN f \ S |-> f[x]]
 AllTrue(S) == [x \in S |-> TRUE]
 EmptyF == [x \in {} |-> TRUE]
 
-RECURSIVE ReachFrom(_, _)
-ReachFrom(front, seen) ==
+RECURSIVE ReachFrom(_, _, _)
+ReachFrom(ch, front, seen) ==
     IF front = {} THEN seen
-    ELSE LET nxt == UNION {Range(Kids(n)) : n \in front} \ seen IN ReachFrom(nxt, seen \cup nxt)
-Reach(r) == ReachFrom({r}, {r})
-Target   == Reach(cfg.root)
+    ELSE LET nxt == UNION {Range(ch[n]) : n \in front} \ seen IN ReachFrom(ch, nxt, seen \cup nxt)
+Reach(ch, r) == ReachFrom(ch, {r}, {r})
+Target   == cfg.target        \* = Reach(cfg.ch, cfg.root), computed once in Init
 
 \* re-create the trie from the DB alone: follow the stored contents from the root
 RECURSIVE RecWalk(_, _)
@@ -100,11 +100,11 @@ Note(r) == hist' = Log(hist, r)
 -----------------------------------------------------------------------------
 Init ==
     /\ \E s \in Shapes, c \in Caps, a \in Algos, f \in FaultSets :
-         /\ cfg = [name |-> s.name, ch |-> s.ch, root |-> s.root, cap |-> c, algo |-> a, faults |-> f]
+         /\ cfg = [name |-> s.name, ch |-> s.ch, root |-> s.root, cap |-> c, algo |-> a, faults |-> f,
+                 target |-> Reach(s.ch, s.root)]
          /\ \E d \in InitDBs(s) :
               /\ db = [k \in d |-> k] /\ avail = d
-              /\ hist = <<Ev("New", [shape |-> s.name, ch |-> s.ch, root |-> s.root, cap |-> c, algo |-> a,
-                                      faults |-> f, db0 |-> d], [x |-> 0])>>
+              /\ hist = <<Ev("New", [shape |-> s, cap |-> c, algo |-> a, faults |-> f, db0 |-> d], [x |-> 0])>>
     /\ budget \in Budgets
     /\ cache = EmptyF /\ pending = {}
     /\ pc = "start" /\ result = "running" /\ rec = "na"
@@ -128,9 +128,21 @@ Intercept(x) ==
 
 \* an honest peer answers a request
 DeliverHonest(h) ==
-    /\ Running /\ h \in pending
+    /\ Running /\ h \in pending /\ "batch" \notin cfg.faults
     /\ Intercept(h) /\ pending' = pending \ {h}
     /\ UNCHANGED budget /\ syncUnch
+
+\* network option "batch": honest peers answer a whole request at once (one message carrying all the nodes)
+RECURSIVE LogAll(_, _)
+LogAll(h, S) == IF S = {} THEN h
+                ELSE LET x == CHOOSE y \in S : \A z \in S : y <= z IN
+                     LogAll(Log(h, Ev("Deliver", [x |-> x], [acc |-> TRUE, key |-> x])), S \ {x})
+DeliverAllHonest ==
+    /\ Running /\ "batch" \in cfg.faults /\ pending # {}
+    /\ cache' = [x \in pending |-> x] @@ cache
+    /\ avail' = avail \cup pending
+    /\ hist' = LogAll(hist, pending)
+    /\ pending' = {} /\ UNCHANGED budget /\ syncUnch
 
 \* the adversary sends any bytes at any time: x = 0 invalid/undecodable, otherwise any valid node (a node of the
 \* target trie that was or was not requested, a duplicate, a node of another trie, a forged variant)
@@ -223,21 +235,25 @@ D_Load ==
     /\ Running /\ pc = "d_ld" /\ Load("d_ld")
     /\ UNCHANGED <<missing, existing, todo, may>> /\ envUnch /\ singleLocalsUnch
 
-\* after loadChildren: the hard cap `break`, or move the element's children into the two lists
-D_LoadEnd ==
-    /\ Running /\ pc = "d_ld" /\ cur.i > Len(Kids(cur.c))
-    /\ IF cur.miss # <<>> /\ Cardinality(missing) > cfg.cap
-       THEN \* break: the element stays in existingNodes (children found stay attached to it, nothing else keeps them)
-            /\ existing' = [existing EXCEPT ![cur.c] = cur.clean]
-            /\ pc' = "d_chk"
-            /\ UNCHANGED <<missing, may>>
-       ELSE LET rest == Without(existing, {cur.h})
-                kids == Range(cur.found) IN
-            /\ existing' = AllTrue(kids) @@ rest
-            /\ missing' = missing \cup Range(cur.miss)
-            /\ may' = may \cup (kids \ DOMAIN rest)
-            /\ pc' = "d_pe"
-    /\ cur' = NoCur
+\* after loadChildren, the hard cap: `if len(missingChildrenHashes) > 0 && len(d.missingHashes) > cap { break }`.
+\* The element stays in existingNodes; the children found stay attached to it and nothing else keeps them.
+D_LoadDone == Running /\ pc = "d_ld" /\ cur.i > Len(Kids(cur.c))
+D_CapHit   == cur.miss # <<>> /\ Cardinality(missing) > cfg.cap
+D_HardCap ==
+    /\ D_LoadDone /\ D_CapHit
+    /\ existing' = [existing EXCEPT ![cur.c] = cur.clean]
+    /\ pc' = "d_chk" /\ cur' = NoCur
+    /\ UNCHANGED <<missing, may, cache, todo, hist>> /\ envUnch /\ singleLocalsUnch
+
+\* otherwise the element leaves existingNodes, its children found join it, the others join missingHashes
+D_Advance ==
+    /\ D_LoadDone /\ ~D_CapHit
+    /\ LET rest == Without(existing, {cur.h})
+           kids == Range(cur.found) IN
+       /\ existing' = AllTrue(kids) @@ rest
+       /\ missing' = missing \cup Range(cur.miss)
+       /\ may' = may \cup (kids \ DOMAIN rest)
+    /\ pc' = "d_pe" /\ cur' = NoCur
     /\ UNCHANGED <<cache, todo, hist>> /\ envUnch /\ singleLocalsUnch
 
 \* the range loop ends once every entry that was present at its start has been produced or deleted
@@ -329,37 +345,44 @@ AddNewKeys(S)  == {y \in S : y \notin DOMAIN existing}
 AddNewState(S, flags) ==
     [y \in DOMAIN existing \cup S |-> IF y \in DOMAIN existing THEN existing[y] ELSE flags[y]]
 
-S_LoadEnd ==
-    /\ Running /\ pc = "s_ld" /\ cur.i > Len(Kids(cur.c))
-    /\ IF cur.miss # <<>>
-       THEN LET a == AddUntilCap(newMissing, cur.miss, cfg.cap) IN
-            /\ newMissing' = a.set
-            /\ IF a.hit
-               THEN \* hard cap: the node just fetched is dropped, the pass ends
-                    /\ newEl' = FALSE /\ pc' = "s_end"
-                    /\ existing' = IF cur.c \in DOMAIN existing THEN [existing EXCEPT ![cur.c] = cur.clean] ELSE existing
-                    /\ UNCHANGED <<missing, may, retry, db, hist>>
-               ELSE LET S == Range(cur.found) \cup {cur.c} IN
-                    /\ existing' = [AddNewState(S, AllTrue(S)) EXCEPT ![cur.c] = cur.clean]
-                    /\ missing' = missing \ S
-                    /\ may' = may \cup (S \ NodesForTrie)
-                    /\ retry' = TRUE
-                    /\ newEl' = IF Cardinality(a.set) > 10 THEN FALSE ELSE newEl
-                    /\ pc' = "s_in"
-                    /\ UNCHANGED <<db, hist>>
-       ELSE \* all children present: they become entries, the node leaves the map and is committed
-            LET S == Range(cur.found)
-                e1 == AddNewState(S, AllTrue(S)) IN
-            /\ existing' = Without(e1, {cur.h})
-            /\ missing' = (missing \ S) \ {cur.h}
-            /\ may' = (may \cup (S \ NodesForTrie)) \ {cur.h}
-            /\ newEl' = (newEl \/ AddNewKeys(S) # {})
-            /\ db' = (cur.c :> Content(cur.c, cur.clean)) @@ db
-            /\ Note(Ev("Put", [k |-> cur.c], [c |-> Content(cur.c, cur.clean)]))
-            /\ pc' = "s_in"
-            /\ UNCHANGED <<newMissing, retry>>
-    /\ cur' = NoCur
-    /\ UNCHANGED <<cfg, cache, pending, avail, budget, result, rec, todo, checked>>
+S_LoadDone == Running /\ pc = "s_ld" /\ cur.i > Len(Kids(cur.c))
+S_Cap == AddUntilCap(newMissing, cur.miss, cfg.cap)
+sLoadUnch == UNCHANGED <<cfg, cache, pending, avail, budget, result, rec, todo, checked>>
+
+\* some children are missing and the hard cap is exceeded: the node just fetched is dropped, the pass ends
+S_HardCap ==
+    /\ S_LoadDone /\ cur.miss # <<>> /\ S_Cap.hit
+    /\ newMissing' = S_Cap.set
+    /\ newEl' = FALSE /\ pc' = "s_end" /\ cur' = NoCur
+    /\ existing' = IF cur.c \in DOMAIN existing THEN [existing EXCEPT ![cur.c] = cur.clean] ELSE existing
+    /\ UNCHANGED <<missing, may, retry, db, hist>> /\ sLoadUnch
+
+\* some children are missing: the node and the children found are kept as received entries (addNew)
+S_Partial ==
+    /\ S_LoadDone /\ cur.miss # <<>> /\ ~S_Cap.hit
+    /\ newMissing' = S_Cap.set
+    /\ LET S == Range(cur.found) \cup {cur.c} IN
+       /\ existing' = [AddNewState(S, AllTrue(S)) EXCEPT ![cur.c] = cur.clean]
+       /\ missing' = missing \ S
+       /\ may' = may \cup (S \ NodesForTrie)
+    /\ retry' = TRUE
+    /\ newEl' = IF Cardinality(S_Cap.set) > 10 THEN FALSE ELSE newEl
+    /\ pc' = "s_in" /\ cur' = NoCur
+    /\ UNCHANGED <<db, hist>> /\ sLoadUnch
+
+\* all children present: they become received entries, the node leaves the map and is committed to the DB
+S_Commit ==
+    /\ S_LoadDone /\ cur.miss = <<>>
+    /\ LET S == Range(cur.found)
+           e1 == AddNewState(S, AllTrue(S)) IN
+       /\ existing' = Without(e1, {cur.h})
+       /\ missing' = (missing \ S) \ {cur.h}
+       /\ may' = (may \cup (S \ NodesForTrie)) \ {cur.h}
+       /\ newEl' = (newEl \/ AddNewKeys(S) # {})
+    /\ db' = (cur.c :> Content(cur.c, cur.clean)) @@ db
+    /\ Note(Ev("Put", [k |-> cur.c], [c |-> Content(cur.c, cur.clean)]))
+    /\ pc' = "s_in" /\ cur' = NoCur
+    /\ UNCHANGED <<newMissing, retry>> /\ sLoadUnch
 
 S_InEnd ==
     /\ Running /\ pc = "s_in" /\ todo \cap NodesForTrie = {}
@@ -411,13 +434,13 @@ Cancel ==
 SyncerEvent ==      \* steps of the syncers that are visible at the cache / DB / request handler / return
     \/ \E h \in todo : D_PMGet(h)
     \/ \E e \in todo \cup may : D_PEPick(e) \/ S_Pick(e)
-    \/ D_Load \/ S_Load \/ D_Request \/ S_Request \/ D_Decide \/ S_Decide \/ S_LoadEnd
+    \/ D_Load \/ S_Load \/ D_Request \/ S_Request \/ D_Decide \/ S_Decide \/ S_Commit
     \/ Cancel \/ S_Timeout
 SyncerInternal ==
-    \/ D_Start \/ D_PMEnd \/ D_LoadEnd \/ D_PEEnd \/ D_Tick
-    \/ S_Start \/ S_Outer \/ S_LoadMem \/ S_InEnd \/ S_End \/ S_Tick
+    \/ D_Start \/ D_PMEnd \/ D_HardCap \/ D_Advance \/ D_PEEnd \/ D_Tick
+    \/ S_Start \/ S_Outer \/ S_LoadMem \/ S_HardCap \/ S_Partial \/ S_InEnd \/ S_End \/ S_Tick
 Syncer == SyncerEvent \/ SyncerInternal
-Honest == \E h \in pending : DeliverHonest(h)
+Honest == (\E h \in pending : DeliverHonest(h)) \/ DeliverAllHonest
 Adversary ==
     \/ \E x \in 0..N : DeliverAdv(x)
     \/ \E h \in pending : Lose(h)
@@ -427,7 +450,7 @@ Next == Syncer \/ Honest \/ Adversary
 
 Spec == Init /\ [][Next]_vars
 \* fair delivery: honest answers arrive, the syncer keeps running
-FairSpec == Spec /\ WF_vars(Syncer) /\ \A h \in 1..20 : WF_vars(DeliverHonest(h))
+FairSpec == Spec /\ WF_vars(Syncer) /\ WF_vars(DeliverAllHonest) /\ \A h \in 1..20 : WF_vars(DeliverHonest(h))
 
 -----------------------------------------------------------------------------
 (* Properties (C05) *)
